@@ -41,33 +41,32 @@ func (c Config) String() string {
 
 // World is the resolved program of one configuration.
 type World struct {
-	inputParam map[*ssa.Parameter]bool // rules_num.go: parameters holding (parts of) the value being encoded
-	Cfg    Config
-	Repo   string
-	Fset   *token.FileSet
-	Pkgs   []*packages.Package
-	Prog   *ssa.Program
-	Pkg    *ssa.Package // the hessian package
-	TPkg   *types.Package
-	Sizes  types.Sizes
-	CG     *callgraph.Graph
-	Funcs  map[string]*ssa.Function // by display name: "encodeInt", "(*Encoder).writeList", "ExtractTypeNameMap$1"
-	NFiles int
-	flows  map[*ssa.Function]*Flow
-	preds  map[*ssa.Function]*ISet // tag predicate summaries
-	rets   map[retKey]ISet
-	rolesCache map[string]*ssa.Function
-	encCache   map[*ssa.Function]*encInfo
-	lenEncCache map[*ssa.Function]*lenEncInfo
-	chunkReadCache map[*ssa.Function][]chunkRead
+	inputParam      map[*ssa.Parameter]bool // rules_num.go: parameters holding (parts of) the value being encoded
+	Cfg             Config
+	Repo            string
+	Fset            *token.FileSet
+	Pkgs            []*packages.Package
+	Prog            *ssa.Program
+	Pkg             *ssa.Package // the hessian package
+	TPkg            *types.Package
+	Sizes           types.Sizes
+	CG              *callgraph.Graph
+	Funcs           map[string]*ssa.Function // by display name: "encodeInt", "(*Encoder).writeList", "ExtractTypeNameMap$1"
+	NFiles          int
+	flows           map[*ssa.Function]*Flow
+	preds           map[*ssa.Function]*ISet // tag predicate summaries
+	rets            map[retKey]ISet
+	rolesCache      map[string]*ssa.Function
+	encCache        map[*ssa.Function]*encInfo
+	lenEncCache     map[*ssa.Function]*lenEncInfo
+	chunkReadCache  map[*ssa.Function][]chunkRead
 	chunkTruncCache map[*ssa.Function]bool
-	decCache   map[*ssa.Function]*decTab
-	wCache     map[*ssa.Function]*writerInfo
-	dispCache  map[string]*dispatch
-	kindCache map[kindRunKey]*kindRunResult
-	etsCache   map[string]ISet
+	decCache        map[*ssa.Function]*decTab
+	wCache          map[*ssa.Function]*writerInfo
+	dispCache       map[string]*dispatch
+	kindCache       map[kindRunKey]*kindRunResult
+	etsCache        map[string]ISet
 }
-
 
 func loadWorld(repo string, cfg Config) (*World, error) {
 	env := append(os.Environ(), "GOFLAGS=-mod=mod", "GOPROXY=off", "GOSUMDB=off", "GOTOOLCHAIN=local", "GOWORK=off", "CGO_ENABLED=0")
